@@ -41,6 +41,19 @@ Section IdClasses.
     Inv s -> forallb op_ok ops = true -> Forall (fun so => Inv (fst so)) (trace s ops).
   Proof. exact (inv_trace E class_pad valid idc fill no_fix eq id_clean_R id_fix_len). Qed.
 
+  (** the same with a fill event chosen per call *)
+  Lemma id_inv_trace_f : forall ops s,
+    Inv s -> forallb (fun fo => op_ok (snd fo)) ops = true ->
+    Forall (fun so => Inv (fst so)) (trace_f class_pad valid idc fill no_fix s ops).
+  Proof.
+    induction ops as [|[f o] ops IH]; intros s HI Hok; cbn [trace_f forallb snd] in *; [constructor|].
+    apply andb_prop in Hok. destruct Hok as [Ho Hr].
+    assert (H1 : Inv (fst (step_f class_pad valid idc fill no_fix s (f, o)))).
+    { unfold step_f. cbn [fst snd].
+      exact (step_inv E class_pad valid idc _ no_fix eq id_clean_R id_fix_len s o HI Ho). }
+    constructor; [exact H1|]. apply IH; [exact H1|exact Hr].
+  Qed.
+
   Lemma id_set_length_exact (s : st E) n fl : 0 <= n ->
     let s' := set_length E no_fix s n fl in
     len s' = n /\ stop s' - start s' = n /\ Inv s' /\
